@@ -336,7 +336,7 @@ def targets(ctx):
                     try:
                         import typing, sys
 
-                        hints = typing.get_type_hints(cls, vars(sys.modules[cls.__module__]))
+                        hints = typing.get_type_hints(cls, vars(sys.modules[cls.__module__]), {})
                         card, _ = gen._hint_shape(hints[f.name])
                         rep = rf.is_repeated if hasattr(rf, "is_repeated") else rf.label == 3
                         want_card = "map" if is_map else ("repeated" if rep else None)
